@@ -154,6 +154,43 @@ def renderXs (p : Policy) (T : Tables) (s : String) : List V → List V
   | x :: xs => renderV p T (.struct s) x :: renderXs p T s xs
 end
 
+/-! A Go struct has ALL its fields: what gohcl leaves untouched is nil.  `complete` adds the fields a description tree
+does not mention as `null` (yaml.v2 walks the struct's fields, not the user's text: a nil pointer without `omitempty`
+is written as `key: null`). -/
+
+def hasKey (k : String) : List (String × V) → Bool
+  | [] => false
+  | (k', _) :: rest => k' == k || hasKey k rest
+
+mutual
+def completeV (T : Tables) : C16HTy → V → V
+  | ty, .map fs =>
+    match ty with
+    | .struct s =>
+      .map (completeFs T s fs ++ ((hFields T s).filter fun f => !hasKey f.hcl fs).map fun f => (f.hcl, V.null))
+    | _ => .map fs
+  | ty, .seq xs =>
+    match ty with
+    | .structList s => .seq (completeXs T s xs)
+    | _ => .seq xs
+  | _, .null => .null
+  | _, .str s => .str s
+  | _, .int i => .int i
+  | _, .bool b => .bool b
+def completeFs (T : Tables) (s : String) : List (String × V) → List (String × V)
+  | [] => []
+  | (k, x) :: rest =>
+    match findH T s k with
+    | none => (k, x) :: completeFs T s rest
+    | some f => (k, completeV T f.ty x) :: completeFs T s rest
+def completeXs (T : Tables) (s : String) : List V → List V
+  | [] => []
+  | x :: xs => completeV T (.struct s) x :: completeXs T s xs
+end
+
+/-- the value of `AmmoHCL` after `gohcl.DecodeBody` for a description that mentions only the fields the user wrote -/
+def complete (T : Tables) (d : V) : V := completeV T (.struct T.hclRoot) d
+
 /-- `yaml.Marshal(AmmoHCL)` followed by `yaml.Unmarshal` into the generic map -/
 def marshal (T : Tables) (d : V) : V := renderV polM T (.struct T.hclRoot) d
 
@@ -228,6 +265,39 @@ end
 
 /-- `config.DecodeAndValidate(map, &AmmoConfig)` (the record lists the non-zero fields under their Go names) -/
 def decode (T : Tables) (doc : V) : Option V := decodeV T (.struct T.cfgRoot) doc
+
+/-! ### the text hop and its one known defect
+
+Between `marshal` and `decode` the HCL path goes through YAML text.  The model carries scalars unchanged; the
+differential tie exhibits exactly one class of descriptions for which yaml.v2 does not: a string-map key `<<` is
+written unquoted and read back as a YAML merge key, whose value must be a map — the file is refused
+(`findings/C16.json`, key `merge-key`).  A user's YAML file quotes the key (`"<<": v`), which yaml.v2 reads as a plain
+string key. -/
+
+mutual
+def hasMergeKey : V → Bool
+  | .map kvs => hasMergeKeyM kvs
+  | .seq xs => hasMergeKeyL xs
+  | _ => false
+def hasMergeKeyM : List (String × V) → Bool
+  | [] => false
+  | (k, x) :: rest => k == "<<" || hasMergeKey x || hasMergeKeyM rest
+def hasMergeKeyL : List V → Bool
+  | [] => false
+  | x :: xs => hasMergeKey x || hasMergeKeyL xs
+end
+
+/-- what `ReadAmmoConfig` returns -/
+inductive Outcome where
+  | refused
+  | accepted (record : Option V)
+
+/-- `.hcl`: ParseHCLFile (gohcl fills `AmmoHCL`: `complete`), ConvertHCLToAmmo (yaml.Marshal, text, DecodeMap) -/
+def hclPath (T : Tables) (d : V) : Outcome :=
+  if hasMergeKey d then .refused else .accepted (decode T (marshal T (complete T d)))
+
+/-- `.yaml`: ParseAmmoConfig (DecodeMap) on the description written in YAML -/
+def yamlPath (T : Tables) (d : V) : Outcome := .accepted (decode T (yamlDoc T d))
 
 /-! ### compatibility of the tables (decidable: evaluated on the regenerated tables) -/
 
